@@ -242,6 +242,27 @@ func (g *G) inline(k int) string {
 			}
 			g.pop()
 			n = 0
+		case "joined":
+			// markup inside a word: no white space around the inline boundary
+			a, b2 := g.tok(), g.tok()
+			switch g.intn(0, 5, "joinform") {
+			case 0:
+				parts = append(parts, "<i>"+a+"</i>"+b2)
+			case 1:
+				parts = append(parts, a+"<span></span>"+b2)
+			case 2:
+				parts = append(parts, a+"<wbr>"+b2)
+			case 3:
+				parts = append(parts, a+"<b>"+b2+"</b>")
+			case 4:
+				parts = append(parts, a+"<!-- c -->"+b2)
+			default:
+				// two words separated only by an element that the distiller removes
+				g.push("hb")
+				parts = append(parts, a+"<button>"+g.tok()+"</button>"+b2)
+				g.pop()
+			}
+			n = 2
 		case "mxss":
 			parts = append(parts, g.foreignRawText()+" "+g.words(n))
 		case "escaped":
